@@ -13,7 +13,7 @@ P("C05",
              "serial engine (flag loaded 0 -> Pause returns -> handler starts; Pause returns while a handler runs) — confirmed on the "
              "real engine by handshake replay (known finding). c05_serial_at_most_one: what the serial engine does guarantee, for every "
              "interleaving. c05_continue_live (serial): events are conserved (handled = scheduled as multisets when Run returns) and, "
-             "for every finite program, from any reachable state with the controller finished and the flag clear the engine reaches the end of Run.",
+             "for every finite program, from any reachable state with the controller finished and the flag clear the engine reaches the end of Run (the waiter holds pauseMu from its re-check of the flag until it is registered on the condition variable); c05_serial_nolock_lost_wakeup_refuted: Pause/Continue without pauseMu lose the wake-up (deadlocked witness state). The tie includes a liveness stress (thousands of Pause/spin/Continue cycles with a progress watchdog, in a subprocess).",
   level_note="partial: Go's sync.Mutex / sync.Cond / sync/atomic / WaitGroup / channel semantics are assumed (each modelled step atomic, "
              "sequentially consistent); real interleavings are replayed for specific schedules and sampled under stress, not enumerated. "
              "The parallel model merges check-out, pop and goroutine spawn of a round into one step (justified in C04's finer model).",
